@@ -101,7 +101,7 @@ def run(sid, props, tier="quick"):
     return 0
 
 
-if __name__ == "__main__":
+if __name__ == "__main__" and sys.argv[1] != "summary":
     if sys.argv[1] == "verify":
         sys.exit(verify(sys.argv[2]))
     if sys.argv[1] == "run":
@@ -111,3 +111,28 @@ if __name__ == "__main__":
             tier = "thorough"
             args.remove("--thorough")
         sys.exit(run(sys.argv[2], args, tier))
+
+
+def summary():
+    rows = []
+    for d in sorted(glob.glob(os.path.join(SEEDED, "*", "meta.json"))):
+        m = json.load(open(d))
+        sid = os.path.basename(os.path.dirname(d))
+        res = m.get("check_results", {})
+        caught = sorted(k for k, v in res.items() if v.get("exit") == 1)
+        missed = sorted(k for k, v in res.items() if v.get("exit") == 0)
+        rows.append((sid, m.get("property"), m.get("summary", "").replace("\n", " ")[:220], m.get("needs_to_manifest", "").replace("\n", " ")[:260], ", ".join(caught), ", ".join(missed)))
+    with open(os.path.join(SEEDED, "SUMMARY.md"), "w") as f:
+        f.write("# Seeded property-breaking changes and which checks report them\n\n")
+        f.write("Produced by fresh sub-agents that saw only the property text and a scratch worktree; each confirmed by `lib/seed.py verify` "
+                "(138 tests green with the change, demo fails with it / passes without) and run with `lib/seed.py run` (patch applied to /repo, checks run, patch undone).\n"
+                "`check_results` keys are `<tier>:<property>`; a check listed under *not reporting* was run and stayed silent — for checks of other properties that is expected "
+                "when the change does not violate them, for the targeted property see DESIGN.md section 8 for what was strengthened afterwards (the table shows the latest runs).\n\n")
+        f.write("| id | property | change | needs | reported by | run but not reporting |\n|---|---|---|---|---|---|\n")
+        for r in rows:
+            f.write("| %s | %s | %s | %s | %s | %s |\n" % r)
+    print("wrote", os.path.join(SEEDED, "SUMMARY.md"), len(rows), "seeds")
+
+
+if __name__ == "__main__" and len(sys.argv) > 1 and sys.argv[1] == "summary":
+    summary()
